@@ -21,6 +21,8 @@ class Verifier:
         self.lemmas = {}
         self.spec = dict(speclib.NAMES)
         self.key_models = {}
+        self.extra = {}
+        self._prepare = []
         import contracts as cpkg
         for m in pkgutil.iter_modules(cpkg.__path__):
             mod = importlib.import_module('contracts.' + m.name)
@@ -30,6 +32,9 @@ class Verifier:
             self.lemmas.update(getattr(mod, 'LEMMAS', {}))
             self.spec.update(getattr(mod, 'SPEC', {}))
             self.key_models.update(getattr(mod, 'KEY_MODELS', {}))
+            self.extra.update(getattr(mod, 'EXTRA', {}))
+            if hasattr(mod, 'prepare'):
+                self._prepare.append(mod.prepare)
         # the class invariant is a precondition of every method whose receiver is built with it
         for k, c in self.contracts.items():
             inv = getattr(c.get('self'), 'inv', None)
@@ -41,16 +46,20 @@ class Verifier:
         self.interp.key_models = self.key_models
         for n, l in self.lemmas.items():
             self.interp.spec_env[n] = (lambda l: (lambda *a: l.instance(self.interp, a)))(l)
+        for prep in self._prepare:
+            prep(self)
         # exception classes of the repository
         exc = self.sb.load('localcider.backend.localciderExceptions')
         for k, v in vars(exc).items():
             if isinstance(v, type) and issubclass(v, BaseException):
                 self.interp.exc_classes[k] = v
 
-    def generate(self, keys, lemma_names=()):
+    def generate(self, keys, lemma_names=(), extra=()):
         """returns (obligations, function reports)"""
         obs = []
         reports = []
+        for e in extra:
+            obs.extend(self.extra[e](self))
         for ln in lemma_names:
             obs.extend(self.lemmas[ln].proof_obligations(self.interp))
         for key in keys:
@@ -74,9 +83,9 @@ class Verifier:
                 obs.append(o)
         return obs, reports
 
-    def run(self, keys, lemma_names=(), timeout_ms=20000, procs=None):
+    def run(self, keys, lemma_names=(), timeout_ms=20000, procs=None, extra=()):
         t0 = time.time()
-        obs, reports = self.generate(keys, lemma_names)
+        obs, reports = self.generate(keys, lemma_names, extra)
         tg = time.time() - t0
         res = solve.discharge_all(obs, timeout_ms, procs)
         out = []
